@@ -298,7 +298,7 @@ class Module:
     self.relpath = relpath
     self.src = src
     self.digest = hashlib.sha256(src.encode()).hexdigest()[:16]
-    self.tree = canon.canonicalise(ast.parse(src, filename=path))
+    self.tree = canon.canonicalise(ast.parse(src, filename=path), relpath=relpath)
     self.scope = Scope('module', self.tree, None, name, self)
     self.funcs_by_node: Dict[ast.AST, FuncInfo] = {}
     self.classes_by_node: Dict[ast.AST, ClassInfo] = {}
